@@ -21,6 +21,20 @@ class TupleRec:
         return isinstance(o, TupleRec) and self.items == o.items
     __hash__ = None
 
+INTERPRETED = ('rec.none', 'rec.kw')
+
+def interp(v):
+    """model value JSON -> the same with the interpreted free symbols replaced by what they return"""
+    if isinstance(v, list):
+        return [interp(x) for x in v]
+    if isinstance(v, dict):
+        if v.get('app') == 'rec.none':
+            return None
+        if v.get('app') == 'rec.kw':
+            return {'d': [[k, interp(x)] for k, x in v.get('vk', [])], 'o': v.get('o')}
+        return {k: interp(x) for k, x in v.items()}
+    return v
+
 EXEC_LOG = []   # (what, node path, node safe flag, received arguments) of every execution, attributed by frame inspection
 
 def _who():
@@ -66,6 +80,11 @@ class WorldImpl:
             src = f"def {short}({', '.join(params)}):\n" \
                   f"    _log.append('call:{fname}'); _xlog.append(('call:{fname}',) + _who() + (([{', '.join(names)}], {va or '()'}, {vk or '{}'}),))\n" \
                   f"    return _Rec({fname!r}, [{', '.join(f'({n!r}, {n})' for n in names)}], {va or '()'}, {vk or '{}'})\n"
+            # interpreted free symbols: the model treats every callable as a free symbol (its result is the term `app`); two names
+            # are given a concrete meaning on the implementation side and the model's term is mapped to it before comparing
+            # (`interp`): rec.none returns None, rec.kw returns a plain dict of its keyword arguments
+            if fname in INTERPRETED:
+                src = src.rsplit('    return ', 1)[0] + {'rec.none': '    return None\n', 'rec.kw': f'    return dict({vk})\n'}[fname]
             ns = {'_log': self.log, '_Rec': Rec, '_xlog': EXEC_LOG, '_who': _who}
             exec(src, ns)
             fn = ns[short]
@@ -192,7 +211,7 @@ def canon_model_config(a):
     a = canon_model_answer(a)
     if 'ok' in a:
         a = dict(a)
-        a['ok'] = renumber(a['ok'])
+        a['ok'] = renumber(interp(a['ok']))
         a['log'] = [e['w'] for e in a.get('log', []) if e['w'].startswith('call:') or e['w'] == 'eval']
     return a
 
